@@ -636,9 +636,25 @@ class StructType(DataType):
         # We need convert Row()/namedtuple into tuple()
         return True
 
+    def _row_by_name(self, obj):
+        # a Row that names its fields is read by name, as the verifier reads
+        # it: its fields may be in another order than the schema's (keyword
+        # arguments are sorted) and it may carry more fields than the schema
+        fields = getattr(obj, '__fields__', None)
+        if (
+            fields is not None
+            and list(fields) != self.names
+            and all(n in fields for n in self.names)
+        ):
+            return create_row(self.names, [obj[n] for n in self.names])
+        return obj
+
     def toInternal(self, obj):
         if obj is None:
             return None
+
+        if isinstance(obj, Row):
+            obj = self._row_by_name(obj)
 
         if self._needSerializeAnyField:
             return self.to_serialized_internal(obj)
